@@ -61,6 +61,12 @@ _arith('uint', 'u64')
 ARITH_TWINS = [k for k in KANI if k.startswith('arith_')]
 
 PROPS = {
+    'C10': dict(
+        units=['preresolved'],
+        not_covered=['that every block the compiler emits satisfies resolve()\'s precondition (unique, defined, forward labels) and is stack-balanced: parser contracts (not reached)',
+                     'PreResolvedByteCode::extend / FromIterator (generic IntoIterator loops)'],
+        assumptions=['HashMap<u32,usize> semantics (vstd)', 'locations[&label] rewritten to *locations.get(&label).unwrap() (std defines Index that way)'],
+    ),
     'C06': dict(
         units=['value_coll', 'value_arith'],
         not_covered=['list / map literals (MkList, MkDict arms and compile-time construction): unit interp', 'size(): unit builtins',
